@@ -140,6 +140,15 @@ let eval_line (fields : string list) : (string * string) list =
          | _, _ -> fail "oracle.C08" "transparent enum: accept/reject differs from 'first variant that accepts'";
                    fail "oracle.C04" "transparent enum: accept/reject differs from 'first variant that accepts'")
       | _ -> ());
+     (* the strict reference deserializer of SpecDec.v (spec-text style), on strict types *)
+     if M.canon_type t && M.rt_type t then begin
+       match M.spec_dec t bs, crate with
+       | Some w, ROk (v, _, _) -> if v <> w then fail "oracle.C04" ("reference deserializer returns " ^ string_of_val w)
+       | None, RErr -> ()
+       | Some w, RErr -> fail "oracle.C04" ("rejected, but the reference deserializer accepts: " ^ string_of_val w)
+       | None, ROk _ -> fail "oracle.C04" "accepted, but the reference deserializer rejects"
+       | _, RPanic -> ()
+     end;
      (match crate with
       | RPanic -> fail "oracle.C05" "decoding panicked"
       | RErr -> ()
@@ -242,7 +251,14 @@ let eval_line (fields : string list) : (string * string) list =
      (* the tiling property, evaluated directly *)
      (match Tiling.check regs bs res with
       | None -> ()
-      | Some why -> fail "oracle.C09" why)
+      | Some why -> fail "oracle.C09" why);
+     (* the proved-equivalent spec-side split (SplitSpec.v), extracted *)
+     if res <> "panic" && List.length bs < 4000 then begin
+       let e = match M.split regs bs with
+         | Some sl -> "ok " ^ String.concat "," (List.map hex_of_bytes sl)
+         | None -> "err" in
+       if e <> res then fail "oracle.C09" ("spec-side split says: " ^ e)
+     end
    | ["encoder"; prefix; nf; items; out] ->
      let pre = bytes_of_hex prefix in
      let items = if items = "-" then [] else
